@@ -193,6 +193,11 @@ func ZeroV[K comparable, V any](m map[K]V) (v V) { return }
 
 // ---- filesystem ------------------------------------------------------------
 
+// Hot > 0 marks the next yields as lying right after an operation with in-flight state
+// (a filesystem call, a lock, a pool operation): a scheduler that wants to preempt where
+// it hurts looks here. Counted down by the scheduler.
+var Hot int
+
 // FSCall is one intercepted filesystem call.
 type FSCall struct {
 	Op      string
@@ -215,6 +220,7 @@ func logFS(op, name string, size, partial int, injected, err error) {
 		c.Err = err.Error()
 	}
 	FSLog = append(FSLog, c)
+	Hot = 2
 }
 
 func consult(op, name string, size int) (int, error) {
@@ -416,6 +422,7 @@ func MutexLock(m *sync.Mutex) {
 	for !m.TryLock() {
 		Cur.Blocked("sync.Mutex.Lock")
 	}
+	Hot = 2
 }
 
 func RWMutexLock(m *sync.RWMutex) {
@@ -474,6 +481,7 @@ func PoolGet(p *sync.Pool) interface{} {
 	if Cur == nil {
 		return p.Get()
 	}
+	Hot = 2
 	reuse := Cur.Coin("pool-reuse") // always drawn, so a task's decision stream does not depend on what other tasks put in the pool
 	if items := poolItems[p]; len(items) > 0 && reuse {
 		x := items[len(items)-1]
@@ -491,6 +499,7 @@ func PoolPut(p *sync.Pool, x interface{}) {
 		p.Put(x)
 		return
 	}
+	Hot = 2
 	if x != nil {
 		poolItems[p] = append(poolItems[p], x)
 	}
